@@ -149,6 +149,7 @@ func c08Prop(c c08Case) common.Result {
 	sets := map[hotstuff.View]map[int]bool{}
 	primary := map[string]bool{} // sender/view already has its message
 	mixedViews, hostileBefore, formed := map[hotstuff.View]bool{}, 0, 0
+	joined := 0
 	for step, m := range c.Msgs {
 		cur := sub.VS.View()
 		tcBefore := sub.VS.HighTC().View()
@@ -196,6 +197,14 @@ func c08Prop(c c08Case) common.Result {
 		}
 		// reference collector
 		expectCert := false
+		if aggregate && isCorrect && sender != 1 && view == cur && sets[view] != nil && !sets[view][1] && !sets[view][sender] && len(sets[view]) == q-1 {
+			// with aggregate certificates a replica that sees a quorum of the OTHERS time out in its view times out as well,
+			// before the quorum is complete, so that the aggregate certificate knows its high QC too (finding 54): its own
+			// timeout and the q-1 it holds are the quorum
+			sets[view][1] = true
+			expectCert = true
+			joined++
+		}
 		if isCorrect && view >= cur {
 			if sets[view] == nil {
 				sets[view] = map[int]bool{}
@@ -302,6 +311,9 @@ func c08Prop(c c08Case) common.Result {
 	cls := []string{c.Rules, fmt.Sprintf("n=%d", c.N), "crypto=" + c.Crypto}
 	if formed > 0 {
 		cls = append(cls, "certificate-formed")
+	}
+	if joined > 0 {
+		cls = append(cls, "subject-joined-the-others-timeouts")
 	}
 	if formed >= 2 {
 		cls = append(cls, "certificates>=2")
